@@ -1695,3 +1695,244 @@ func c04IterErr(c *Ctx) {
 	}
 	c.Floor(rule, n, 20, "functions that walk a tree iterator and return an error")
 }
+
+// retainsNodeObject: the type is, points to or contains a tree node object (node.Node, *node.InternalNode, *node.LeafNode).
+// Pointers to node.Pointer are the tree's handles and are not node objects.
+func retainsNodeObject(t types.Type, d int, seen map[types.Type]bool) string {
+	if d > 6 || seen[t] {
+		return ""
+	}
+	seen[t] = true
+	switch n := namedOf(derefType(t)); n {
+	case "storage/mkvs/node.Node", "storage/mkvs/node.InternalNode", "storage/mkvs/node.LeafNode":
+		return n
+	case "storage/mkvs/node.Pointer":
+		return ""
+	}
+	switch u := derefType(t).Underlying().(type) {
+	case *types.Struct:
+		if nm := namedOf(derefType(t)); nm != "" && !strings.HasPrefix(nm, "storage/mkvs") {
+			return ""
+		}
+		for i := 0; i < u.NumFields(); i++ {
+			if r := retainsNodeObject(u.Field(i).Type(), d+1, seen); r != "" {
+				return u.Field(i).Name() + "→" + r
+			}
+		}
+	case *types.Slice:
+		return retainsNodeObject(u.Elem(), d+1, seen)
+	case *types.Array:
+		return retainsNodeObject(u.Elem(), d+1, seen)
+	case *types.Map:
+		return retainsNodeObject(u.Elem(), d+1, seen)
+	}
+	return ""
+}
+
+// c04Round4 (written after seeds C04r4/10..12 were missed).
+func c04Round4(c *Ctx) {
+	// (a) seeds 11 and 12: node objects belong to the tree's cache, which cuts the children off an evicted node and may
+	// drop it altogether. What outlives one step of a walk — the proof builder and the iterator's position stack — keeps
+	// copies (serialised bytes, hashes, keys) or pointer handles, never node objects: a retained object is read later
+	// with its children gone (a proof that no longer hashes to the root; an iteration that silently skips a subtree).
+	for _, tn := range []string{"storage/mkvs/syncer.ProofBuilder", "storage/mkvs/syncer.proofNode", "storage/mkvs.treeIterator", "storage/mkvs.pathAtom"} {
+		i := strings.LastIndex(tn, ".")
+		pk := c.P.Pkg(tn[:i])
+		inst := tn + ":keeps no tree node objects"
+		if pk == nil || pk.Types.Scope().Lookup(tn[i+1:]) == nil {
+			c.Fail("C04.merge", inst, "", "type not found (unresolved anchor)")
+			continue
+		}
+		obj := pk.Types.Scope().Lookup(tn[i+1:])
+		seen := map[types.Type]bool{}
+		bad := ""
+		if st, ok := obj.Type().Underlying().(*types.Struct); ok {
+			for k := 0; k < st.NumFields(); k++ {
+				f := st.Field(k)
+				if f.Name() == "tree" {
+					continue // the iterator's owner
+				}
+				if r := retainsNodeObject(f.Type(), 0, seen); r != "" {
+					bad = f.Name() + "→" + r
+				}
+			}
+		}
+		c.Check(bad == "", "C04.merge", inst, c.P.Pos(obj.Pos()), "no field holds a node.Node / *InternalNode / *LeafNode", "the type retains a tree node object ("+bad+"): the cache cuts the children off evicted nodes, so what is read from the retained object later is not what was verified/visited — a produced proof no longer hashes to the root, an iteration skips a subtree without an error")
+	}
+	// (b) seed 10: a lookup proof contains every node on the path from the root: in doGet, once the node was obtained,
+	// nothing but "no proof builder" or "nil pointer" lies between it and Include.
+	if fn := c.needFn("C04.verify", "storage/mkvs.(*tree).doGet"); fn != nil {
+		c.Analysed[fname(fn)] = true
+		var deref ssa.CallInstruction
+		var incl []ssa.Instruction
+		for _, call := range callsIn(fn) {
+			switch calleeName(call) {
+			case "storage/mkvs.(*cache).derefNodePtr":
+				if deref == nil {
+					deref = call
+				}
+			case "storage/mkvs/syncer.(*ProofBuilder).Include":
+				a := allArgs(call)
+				if deref != nil && len(a) == 2 && strings.Contains(vstr(a[1]), "derefNodePtr(") && !strings.Contains(vstr(a[1]), ".Left") && !strings.Contains(vstr(a[1]), ".Right") {
+					incl = append(incl, call)
+				}
+			}
+		}
+		inst := fname(fn) + ":every node obtained on the path is included in the proof"
+		if deref == nil || len(incl) == 0 {
+			c.Fail("C04.verify", inst, c.P.Pos(fn.Pos()), "derefNodePtr or Include(node) not found in doGet (unresolved anchor)")
+		} else {
+			start, _ := SuccessEdges(deref)
+			cut := NewCut().AddInstr(incl...)
+			cut.AddEdges(HeldEdges(fn, `\.proofBuilder == nil$`)...)
+			cut.AddEdges(HeldEdges(fn, `^param:ptr == nil$`)...)
+			stop := func(in ssa.Instruction) bool {
+				if _, ok := in.(*ssa.Return); ok {
+					return true
+				}
+				if call, ok := in.(ssa.CallInstruction); ok {
+					return calleeName(call) == "storage/mkvs.(*tree).doGet"
+				}
+				return false
+			}
+			hit := Reach(fn, nil, start, stop, cut)
+			site := c.P.InstrPos(incl[0])
+			if hit != nil {
+				site = c.P.InstrPos(hit)
+			}
+			c.Check(len(start) > 0 && hit == nil, "C04.verify", inst, site, "after the node was obtained every path to a return or to the descent passes Include(node), unless there is no proof builder or the pointer is nil", "doGet can go on (return or descend) after obtaining a node without including it in the proof being built although a proof builder is present: nodes on the path are missing from the lookup proof, which then verifies against the root but determines neither the value nor the absence of the key")
+		}
+	}
+}
+
+// c03Round4 (written after seeds C03r4/10..12 were missed by C03).
+func c03Round4(c *Ctx) {
+	const pk = "storage/mkvs"
+	// (a) seed 10: the pending write log (what Get consults first) is written only after the structural operation
+	// succeeded — an entry written before a removal that then fails says "removed" for a key that is still in the tree.
+	for _, pair := range [][2]string{{pk + ".(*tree).RemoveExisting", pk + ".(*tree).doRemove"}, {pk + ".(*tree).Insert", pk + ".(*tree).doInsert"}} {
+		fn := c.needFn("C03.mutate", pair[0])
+		if fn == nil {
+			continue
+		}
+		c.Analysed[fname(fn)] = true
+		var ops []ssa.Instruction
+		for _, call := range callsIn(fn) {
+			if calleeName(call) == pair[1] {
+				ops = append(ops, call)
+			}
+		}
+		var writes []ssa.Instruction
+		for _, b := range fn.Blocks {
+			for _, in := range b.Instrs {
+				switch x := in.(type) {
+				case *ssa.MapUpdate:
+					if loadsField(x.Map, "pendingWriteLog") {
+						writes = append(writes, in)
+					}
+				case *ssa.Store:
+					if fa, ok := x.Addr.(*ssa.FieldAddr); ok && namedOf(derefType(fa.X.Type())) == pk+".pendingEntry" {
+						if _, local := fa.X.(*ssa.Alloc); !local {
+							writes = append(writes, in)
+						}
+					}
+				}
+			}
+		}
+		ok := len(ops) > 0 && len(writes) > 0
+		site := c.P.Pos(fn.Pos())
+		for _, w := range writes {
+			if Reach(fn, w, nil, anyOf(ops), nil) != nil {
+				ok = false
+				site = c.P.InstrPos(w)
+			}
+		}
+		c.Check(ok, "C03.mutate", fname(fn)+":the pending write log is written only after the structural operation", site, itoa(len(writes))+" write(s), none before "+pair[1][strings.LastIndex(pair[1], ".")+1:], "the pending write log is written before "+pair[1]+" runs: when the operation fails (cancelled context, node database error) the entry stays, Get answers from it (\"removed\"/new value) while iteration and commit still see the old tree, and later removals of the key short-circuit")
+	}
+	// (b) seed 11: doGet hands out a leaf's value only where the whole key was compared (the descent follows branching
+	// bits only; compressed labels above the leaf are not compared on the way down).
+	if fn := c.needFn("C03.sibling", pk+".(*tree).doGet"); fn != nil {
+		ev := Ev{Name: "return leaf.Value", Fn: fn}
+		for _, r := range Returns(fn) {
+			if len(r.Results) == 2 && loadsField(unspill(r.Results[0]), "Value") {
+				ev.Ins = append(ev.Ins, r)
+			}
+		}
+		c.DominatedByCond("C03.sibling", fn, "leaf.Key.Equal(key)", `^storage/mkvs/node\.\(Key\)\.Equal\(.*\.Key,param:key\)$`, ev, "a lookup returns a leaf's value only if the leaf's whole key equals the key asked for: the descent checks branching bits only, so a partial comparison takes an absent key for a live one")
+	}
+	// (c) seed 12 was reported by C02.codec only: pathbadger decodes the embedded leaf of an internal node iff any byte
+	// remains (the empty key with an empty value is two bytes).
+	c02EmbeddedLeaf(c, "C03.sibling")
+}
+
+// c06Round4 (written after seeds C06r4/10 and 11 were missed by C06).
+func c06Round4(c *Ctx, ix *Index) {
+	// (a) seed 11 was reported by C02.dbptr only: a failed batch commit undoes the database pointers it assigned (the
+	// same tree re-committed into the next version would otherwise write its nodes under the previous version's keys,
+	// which finalization of that version overwrites or deletes).
+	c02DbPtrUndo(c, ix, "C06.sync")
+	// (b) seed 10: pathbadger Finalize copies the pending nodes of a finalized root into the finalized keyspace unless
+	// THAT root's sequence number is zero — the decision is per root type, from finalizedSeqNos[type]; nothing else
+	// lets an iteration of the copy loop skip (a flag shared by all root types lets the last root visited decide for
+	// the others, and the winning fork's staged nodes are deleted with the pending set without having been copied).
+	fn := c.needFn("C06.discard", "storage/mkvs/db/pathbadger.(*badgerNodeDB).Finalize")
+	if fn == nil {
+		return
+	}
+	c.Analysed[fname(fn)] = true
+	// the copy: batch.Set(finalizedNodeKeyFmt…) whose value comes from a pending-node Get
+	var copies []ssa.Instruction
+	for _, call := range callsIn(fn) {
+		if strings.HasSuffix(calleeName(call), "badger/v4.(*WriteBatch).Set") {
+			a := allArgs(call)
+			if len(a) >= 2 && strings.Contains(vstr(a[1]), "finalizedNodeKeyFmt") {
+				copies = append(copies, call)
+			}
+		}
+	}
+	inst := fname(fn) + ":the copy of a finalized root's pending nodes is skipped only for sequence number zero"
+	if len(copies) == 0 {
+		c.Fail("C06.discard", inst, c.P.Pos(fn.Pos()), "the copy into the finalized keyspace was not found in Finalize (unresolved anchor)")
+		return
+	}
+	// the enclosing loop over the root types: the Next whose value (#2) the inner copy loop ranges over
+	var outerNext *ssa.Next
+	var innerRange ssa.Instruction
+	for _, bb := range fn.Blocks {
+		for _, in := range bb.Instrs {
+			rg, ok := in.(*ssa.Range)
+			if !ok {
+				continue
+			}
+			ex, ok := rg.X.(*ssa.Extract)
+			if !ok || ex.Index != 2 {
+				continue
+			}
+			nx, ok := ex.Tuple.(*ssa.Next)
+			if !ok || !rg.Block().Dominates(copies[0].Block()) {
+				continue
+			}
+			outerNext, innerRange = nx, rg
+		}
+	}
+	if outerNext == nil {
+		c.Fail("C06.discard", inst, c.P.InstrPos(copies[0]), "the loop over the root types around the copy was not found (unresolved anchor)")
+		return
+	}
+	var body []Edge
+	for _, bb := range fn.Blocks {
+		if iff := lastIfOf(bb); iff != nil {
+			if ex, ok := iff.Cond.(*ssa.Extract); ok && ex.Tuple == ssa.Value(outerNext) && ex.Index == 0 {
+				body = append(body, Edge{bb, 0})
+			}
+		}
+	}
+	cut := NewCut().AddInstr(innerRange)
+	cut.AddEdges(HeldEdges(fn, `^make\(map\[byte\]uint16\)\[.*\] == 0$`)...)
+	hit := Reach(fn, nil, body, isInstr(outerNext), cut)
+	site := c.P.InstrPos(copies[0])
+	if hit != nil {
+		site = c.P.InstrPos(innerRange)
+	}
+	c.Check(len(body) > 0 && hit == nil, "C06.discard", inst, site, "an iteration of the loop over the root types reaches the next one only through the copy loop or through `sequence number of this type == 0`", "an iteration of the copy loop can be skipped for a reason other than that root type's own sequence number being zero: with several root types finalized in one version the staged nodes of a winning fork are not copied before the pending set is deleted, and the finalized root has missing nodes")
+}
